@@ -204,6 +204,10 @@ def build_harness(profile="debug"):
     """Rebuild the harness (and lace inside it) from /repo's current working tree."""
     with Lock("cargo"):
         shutil.copyfile(os.path.join(REPO, "Cargo.lock"), os.path.join(HARNESS, "Cargo.lock"))
+        tmpl = open(os.path.join(HARNESS, "Cargo.toml.in")).read().replace("@REPO@", REPO)
+        ct = os.path.join(HARNESS, "Cargo.toml")
+        if not os.path.exists(ct) or open(ct).read() != tmpl:
+            open(ct, "w").write(tmpl)
         cmd = "cargo build --offline" + (" --release" if profile == "release" else "")
         rc, out = sh(cmd, cwd=HARNESS, timeout=1800,
                      env={"RUSTFLAGS": "--cfg lace_verif", "CARGO_TARGET_DIR": TARGET})
